@@ -282,9 +282,8 @@ def tracked_method(func):
         if obj is not None:
             args = tuple(TrackedValue.make(obj, attr, arg) for arg in args)
             if kwargs: kwargs = {key: TrackedValue.make(obj, attr, value) for key, value in kwargs.items()}
-        result = func(self, *args, **kwargs)
-        self._changed_()
-        return result
+        self._changed_()  # first: it refuses the change when the db_session is over or the object was deleted
+        return func(self, *args, **kwargs)
     return new_func
 
 class TrackedDict(TrackedValue, dict):
